@@ -6,7 +6,7 @@ from vfw import sym, theory
 from vfw.sym import SV, SB, ctx, Unsupported
 from vfw.engine import Contract
 from vfw.interp import Interp
-from vfw.models import voxels, npm, rot as rotm
+from vfw.models import voxels, npm, frames, rot as rotm
 from vfw.models.voxels import V
 from . import common
 from .common import zr
@@ -170,6 +170,174 @@ class ExtractSubvolume(Contract):
         return r.replay_window(model)
 
 
+class Crop(Contract):
+    """crop(map, new_size[, crop_coord]): the window of the requested size whose voxel 0 is floor(c - size/2) (c = floor(N/2) by default),
+    clipped to the volume; the written file gets that window as float32"""
+    prop = "C14"
+    module = "cryomap"
+    qual = "crop"
+    configs = [{"coord": "default"}, {"coord": "given"}, {"coord": "given", "write": True}]
+
+    def cfg_name(self, cfg):
+        return f"crop_coord={cfg['coord']}" + (",output_file" if cfg.get("write") else "")
+
+    def bind(self, cx, cfg):
+        written = []
+        it = _interp(contracts={"write": lambda data, name, **k: written.append((data, name, k)), "read": lambda m, **k: m})
+        x, size = _vol(cx)
+        Ss = [SV(z3.Int(f"S{a}sz")) for a in "xyz"]
+        for s, v in zip(Ss, size):
+            cx.assume(z3.And(s.t >= 2, s.t <= v.t, s.t % 2 == 0))  # requires: the new size fits into the map and is even (the property's quantifier: even box sizes)
+        co = [SV(z3.Int(f"c{a}")) for a in "xyz"] if cfg["coord"] == "given" else None
+        f = it.function("crop")
+        kw = {"crop_coord": npm.obj(list(co))} if co else {}
+        if cfg.get("write"):
+            kw["output_file"] = "out.mrc"
+        return (lambda: f(x, npm.obj(list(Ss)), **kw)), {"x": x, "size": size, "S": Ss, "c": co, "orig": x.elem.t, "written": written}
+
+    def post(self, cx, cfg, inp, res):
+        x, size, Ss = inp["x"], inp["size"], inp["S"]
+        cen = [zr(c) for c in inp["c"]] if inp["c"] else [z3.ToReal(size[a].t / 2) for a in range(3)]
+        a0 = [z3.ToInt(cen[a] - z3.ToReal(Ss[a].t) / 2) for a in range(3)]
+        v0 = [z3.If(a0[a] > 0, a0[a], 0) for a in range(3)]
+        v1 = [z3.If(a0[a] + Ss[a].t < size[a].t, a0[a] + Ss[a].t, size[a].t) for a in range(3)]
+        meets = z3.And(*[z3.And(a0[a] < size[a].t, a0[a] + Ss[a].t > 0) for a in range(3)])
+        if not isinstance(res, voxels.VArr):
+            return [("returns_an_array", z3.BoolVal(False))]
+        hy = [meets] + [z3.And(V(a) >= 0, V(a) < v1[a] - v0[a]) for a in range(3)]
+        cl = [("window_shape", z3.Implies(meets, z3.And(*[voxels._size_t(res.shape_[a]) == v1[a] - v0[a] for a in range(3)])), ()),
+              ("default_window_has_the_requested_size", z3.And(*[voxels._size_t(res.shape_[a]) == Ss[a].t for a in range(3)]), ()) if not inp["c"] else ("given_centre", z3.BoolVal(True)),
+              ("voxel_is_map_voxel_at_window_offset", zr(res.elem) == x.fn(*[V(a) + v0[a] for a in range(3)]), (), hy),
+              ("frame.input_not_mutated", z3.BoolVal(bool(x.elem.t.eq(inp["orig"]))))]
+        if cfg.get("write"):
+            w = inp["written"]
+            ok = len(w) == 1 and w[0][0] is res and w[0][1] == "out.mrc" and getattr(w[0][2].get("data_type"), "__name__", str(w[0][2].get("data_type"))) in ("single", "float32")
+            cl.append(("written_file_holds_the_window_as_float32", z3.BoolVal(bool(ok))))
+        return cl
+
+    def replay(self, clause, model, cfg):
+        from rtc import c14 as r
+        return r.replay_window(model)
+
+
+class _Particles(frames._Generic):
+    """motl.get_coordinates() - 1.0 / motl.get_rotations() / motl.df[field] for the generic particle: iterating the coordinates binds the loop
+    index to the generic row and the loop value to its (0-based) complete position"""
+
+    def __init__(self, owner, vals):
+        self.owner, self.vals = owner, vals
+
+    def __sub__(self, o):
+        return _Particles(self.owner, [v - o for v in self.vals])
+
+    def __generic_enumerate__(self):
+        return self
+
+    def __generic_for__(self, interp, st, env):
+        import ast
+        from vfw.models import kernels
+        if not (isinstance(st.target, ast.Tuple) and len(st.target.elts) == 2):
+            raise Unsupported("particle loop must be `for i, coord in enumerate(coordinates)`")
+        iname, cname = st.target.elts[0].id, st.target.elts[1].id
+
+        def bind(e):
+            e.vars[iname] = self.owner.idx
+            e.vars[cname] = npm.obj(list(self.vals))
+            return []
+        kernels.generic_body(interp, st, env, bind)
+
+
+class _PerParticle:
+    def __init__(self, owner, what):
+        self.owner, self.what = owner, what
+
+    def __getitem__(self, k):
+        if not (isinstance(k, SV) and k.t.eq(self.owner.idx.t)):
+            raise Unsupported("per-particle value of a particle other than the loop's own")
+        return self.what
+
+
+class _MotlModel:
+    """assumed contracts of Motl.get_coordinates (x + shift, C05/C09), Motl.get_rotations (the particle's zxz orientation, same convention as
+    shift_positions) and column access, restricted to what place_object uses"""
+
+    def __init__(self, cx):
+        self.idx = SV(z3.Int("particle_index"))
+        self.n = SV(z3.Int("n_particles"))
+        cx.assume(z3.And(self.idx.t >= 0, self.idx.t < self.n.t))
+        self.pos = [SV(z3.Real(f"pos_{a}")) for a in "xyz"]        # complete position (1-based, as stored in the list)
+        self.colour = SV(z3.Real("colour_value"))
+        self.R = [[z3.Real(f"R{i}{j}") for j in range(3)] for i in range(3)]
+        self.rot = rotm.Rot([self.R], "single")
+        self.asked = []
+        owner = self
+
+        class DF:
+            def __getitem__(self, c):
+                owner.asked.append(c)
+                return _PerParticle(owner, owner.colour)
+        self.df = DF()
+
+    def get_rotations(self):
+        return _PerParticle(self, self.rot)
+
+    def get_coordinates(self):
+        return _Particles(self, list(self.pos))
+
+
+class PlaceObject(Contract):
+    """place_object, effect of one arbitrary iteration of its loop on the container: the voxels of the window around the particle's 0-based complete
+    position where the rotated template exceeds 0.1 take the value of the colouring field, every other voxel keeps its value.  (How successive stamps
+    overwrite each other is the loop's order and is checked by the bounded run.)"""
+    prop = "C14"
+    module = "cryomap"
+    qual = "place_object"
+
+    def bind(self, cx, cfg):
+        calls = []
+
+        def rotate_stub(vol, rotation=None, rotation_angles=None, transpose_rotation=False, **k):
+            """callee contract of cryomap.rotate (contract Rotate above): a new array of the template's shape"""
+            calls.append({"vol": vol, "rotation": rotation, "transpose": transpose_rotation, "angles": rotation_angles})
+            f = z3.Function("rotated_template", z3.IntSort(), z3.IntSort(), z3.IntSort(), z3.RealSort())
+            return voxels.VArr(vol.shape_, SV(f(V(0), V(1), V(2))))
+
+        it = _interp(contracts={"rotate": rotate_stub, "read": lambda m, **k: m})
+        box, size = _vol(cx, "container")
+        ts = [SV(z3.Int(f"T{a}")) for a in "xyz"]
+        for t in ts:
+            cx.assume(t.t >= 1)
+        templ = voxels.input_array("template", list(ts))
+        motl = _MotlModel(cx)
+        f = it.function("place_object")
+        return (lambda: f(templ, motl, volume=box, feature_to_color="geom3")), {"box": box, "size": size, "templ": templ, "ts": ts, "motl": motl, "calls": calls, "orig": box.elem.t}
+
+    def post(self, cx, cfg, inp, res):
+        box, size, ts, motl, calls = inp["box"], inp["size"], inp["ts"], inp["motl"], inp["calls"]
+        cl = [("returns_the_container", z3.BoolVal(res is box)),
+              ("template_rotated_by_the_particles_orientation_in_the_place_object_call_form",
+               z3.BoolVal(len(calls) == 1 and calls[0]["vol"] is inp["templ"] and calls[0]["rotation"] is motl.rot and calls[0]["transpose"] is True and calls[0]["angles"] is None)),
+              ("coloured_by_the_requested_field", z3.BoolVal(motl.asked == ["geom3"]))]
+        if not isinstance(res, voxels.VArr):
+            return cl
+        # independent statement: the template's voxel 0 sits at floor(p - 1 - T/2) of the container
+        a0 = [z3.ToInt(motl.pos[a].t - 1 - z3.ToReal(ts[a].t) / 2) for a in range(3)]
+        t_idx = [V(a) - a0[a] for a in range(3)]
+        in_templ = z3.And(*[z3.And(t_idx[a] >= 0, t_idx[a] < ts[a].t) for a in range(3)])
+        RT = z3.Function("rotated_template", z3.IntSort(), z3.IntSort(), z3.IntSort(), z3.RealSort())
+        stamped = z3.And(in_templ, RT(*t_idx) > z3.RealVal(str(__import__("fractions").Fraction(0.1))))  # the literal 0.1 is identified with its double
+        hy = [z3.And(V(a) >= 0, V(a) < size[a].t) for a in range(3)]
+        old = z3.substitute(inp["orig"], *[(V(a), V(a)) for a in range(3)])
+        cl.append(("voxel_gets_the_colour_where_the_rotated_template_exceeds_the_threshold_and_keeps_its_value_elsewhere",
+                   zr(res.elem) == z3.If(stamped, motl.colour.t, old), (), hy))
+        cl.append(("container_shape_unchanged", z3.And(*[voxels._size_t(res.shape_[a]) == size[a].t for a in range(3)]), ()))
+        return cl
+
+    def replay(self, clause, model, cfg):
+        from rtc import c14 as r
+        return r.replay_place()
+
+
 class Pad(Contract):
     prop = "C14"
     module = "cryomap"
@@ -241,12 +409,14 @@ class Symmetrize(Contract):
         return r.replay_symmetrize(cfg["n"])
 
 
-CONTRACTS = [Rotate, StartEnd, ExtractSubvolume, Pad, Symmetrize]
+CONTRACTS = [Rotate, StartEnd, ExtractSubvolume, Crop, PlaceObject, Pad, Symmetrize]
 LEVEL = "other"
 EXPLANATION = ("Deductive part: the homogeneous matrix handed to scipy.ndimage.affine_transform samples the input at centre + R^T (o - centre) with centre = floor(N/2) and R the same zxz orientation matrix "
                "that shift_positions applies (for rotation_angles and for rotation=..., transpose_rotation=True, the form place_object uses); window arithmetic of get_start_end_indices for integer and "
-               "half-integer centres; extract_subvolume = window with volume mean outside; pad centring; symmetrize_volume = mean of n copies rotated by the multiples of 360/n starting from a zero "
-               "accumulator. Bounded part: exact voxel permutation for the 24 cube rotations, inverse rotation restores smooth maps, place_object, crop, invariance and total density of symmetrised maps.")
+               "half-integer centres; extract_subvolume = window with volume mean outside; pad centring; crop = the (even-sized) window around the given or default centre, written as float32; place_object: in an arbitrary iteration the voxels of the window around the "
+               "particle's 0-based complete position where the rotated template exceeds 0.1 take the colouring value and all others keep theirs, the template being rotated by the particle's orientation in the "
+               "call form proved for rotate; symmetrize_volume = mean of n copies rotated by the multiples of 360/n starting from a zero "
+               "accumulator. Bounded part: exact voxel permutation for the 24 cube rotations, inverse rotation restores smooth maps, place_object end to end (order of overlapping stamps), invariance and total density of symmetrised maps.")
 ASSUMPTIONS = ["scipy.ndimage.affine_transform contract (output[o] = interpolate(input, M o + offset), exact on grid points); numpy matmul / inverse of a translation matrix",
                "face voxels are excluded from the exactness claim (interpolation domain), as in the property"]
 
